@@ -390,15 +390,15 @@ func rcReadLog(p string) rcLog {
 }
 
 type rcSess struct {
-	r     *mon.Run
-	i     int
-	c     rcCase
-	cfg   *rcCfg
-	s     *crs.Session
-	hist  []string
-	desc  string
-	gens  int
-	bad   bool // a violation was recorded for this case
+	r    *mon.Run
+	i    int
+	c    rcCase
+	cfg  *rcCfg
+	s    *crs.Session
+	hist []string
+	desc string
+	gens int
+	bad  bool // a violation was recorded for this case
 }
 
 func (x *rcSess) viol(key, what string) {
